@@ -561,6 +561,20 @@ func (s *UtxoStore) deleteUnminedInputs(tx mwdb.DBTransaction, rec *TxRecord) er
 	return nil
 }
 
+// removeUnminedInputsOf takes rec out of the spender lists of its inputs; other
+// unmined transactions spending the same outputs keep their entries.
+func (s *UtxoStore) removeUnminedInputsOf(tx mwdb.DBTransaction, rec *TxRecord) error {
+	nsUnminedInputs := tx.FetchBucket(s.bucketMeta.nsUnminedInputs)
+	for _, input := range rec.MsgTx.TxIn {
+		prevOut := &input.PreviousOutPoint
+		k := canonicalOutPoint(&prevOut.Hash, prevOut.Index)
+		if err := removeRawUnminedInputSpender(nsUnminedInputs, k, rec.Hash[:]); err != nil {
+			return err
+		}
+	}
+	return nil
+}
+
 func (s *UtxoStore) UpdateMinedBalances(tx mwdb.DBTransaction, balances map[string]massutil.Amount) error {
 	nsMinedBalance := tx.FetchBucket(s.bucketMeta.nsMinedBalance)
 	for walletId, amt := range balances {
